@@ -1360,7 +1360,11 @@ class Store:
         flow_updates.extend(flow_paths)
 
         self._apply_subschema_path(path)
-        self.get_path(path).apply_defaults()
+        target = self.get_path(path)
+        target.apply_defaults()
+        # variables that only this store's sub-schema declares did not
+        # exist when generate() applied the initial state
+        target.set_value(insertion['initial_state'])
 
         return process_updates, step_updates, flow_updates, topology_updates
 
